@@ -37,82 +37,181 @@ def batch_path_final_check(ctx, clause):
                    key='batch_path:final-node==root')
 
 
+VIEW_CALLS = ('::deref', '::deref_mut', '::iter', '::iter_mut', '::into_iter', '::as_slice', '::as_mut_slice', '::as_ref', '::as_mut', '::borrow', '::borrow_mut',
+              '::values', '::values_mut', '::keys', '::index', '::index_mut', '::get', '::get_mut', '::first', '::last', '::by_ref', '::rev', '::enumerate', '::peekable')
+
+
+def base_locals(body, op, depth=10, env=None):
+    """The locals a value is a VIEW of: followed back through copies, references and view-preserving calls (deref, iter, index ...).
+    With `env` (a set), closure-environment captures met on the way are recorded there as capture indices (env local 1, field k)."""
+    out, seen = set(), set()
+    work = [(op[1][0], depth)] if op[0] in ('copy', 'move') else []
+    if env is not None and op[0] in ('copy', 'move') and op[1][0] == 1:
+        for pe in op[1][1]:
+            if isinstance(pe, tuple) and pe[0] == 'f':
+                env.add(pe[1])
+                break
+    while work:
+        l, d = work.pop()
+        if l in seen:
+            continue
+        seen.add(l)
+        nxt = []
+        for (bi, si, pl, rv) in body.defs(l):
+            if pl[1]:
+                continue
+            if si == 't':
+                c = rv
+                if any(n.endswith(VIEW_CALLS) for n in c.names()) and c.args and c.args[0][0] in ('copy', 'move'):
+                    nxt.append(c.args[0][1][0])
+            elif rv[0] == 'ref':
+                nxt.append(rv[1][0])
+                if env is not None and rv[1][0] == 1:
+                    for pe in rv[1][1]:
+                        if isinstance(pe, tuple) and pe[0] == 'f':
+                            env.add(pe[1])
+                            break
+            elif rv[0] == 'use' and rv[1][0] in ('copy', 'move'):
+                nxt.append(rv[1][1][0])
+                if env is not None and rv[1][1][0] == 1:
+                    for pe in rv[1][1][1]:
+                        if isinstance(pe, tuple) and pe[0] == 'f':
+                            env.add(pe[1])
+                            break
+        if not nxt or d == 0:
+            out.add(l)
+        for n in nxt:
+            work.append((n, d - 1))
+    return out
+
+
+def closure_agg_sites(fam, closure_fn):
+    """[(parent body fn, local holding the closure value, capture operands)] of the aggregate(s) that build `closure_fn`."""
+    name = getattr(closure_fn, '_orig', closure_fn).name
+    out = []
+    for g in fam:
+        for b in g.body.blocks:
+            if b.cleanup:
+                continue
+            for (_, pl, rv) in b.stmts:
+                if rv[0] == 'agg' and rv[1] in ('closure', 'coroutine') and rv[2] == name and not pl[1]:
+                    out.append((g, pl[0], rv[5]))
+    return out
+
+
+def main_base_locals(main, fam, g, op):
+    """base locals IN THE MAIN BODY of a value used in body g (g = main, or a closure of it: captures are followed to the parent)."""
+    if g is main:
+        return base_locals(main.body, op)
+    env = set()
+    base_locals(g.body, op, env=env)
+    out = set()
+    for (pg, cl_local, caps) in closure_agg_sites(fam, g):
+        for k in env:
+            if k < len(caps):
+                out |= main_base_locals(main, fam, pg, caps[k]) if pg is not g else set()
+    return out
+
+
+def _is_update(n):
+    return glob_match('*digest::*::update', n) or glob_match('*Digest*::update', n) or n.endswith('::chain_update')
+
+
 def bls_aggregate_binding(ctx, clause, fn_pat='mithril_stm::*::BlsSignature::aggregate', sig_param='p#2', label='BlsSignature::aggregate',
                           key='bls_aggregate:coefficients', with_verify_args=True):
     """BlsSignature::aggregate (and, since F14, batch_verify_aggregates): every coefficient binds the whole signature set:
-    a transcript hasher absorbs every signature; each coefficient finalises a *clone* of that transcript
-    extended by the index; the transcript is never reset; the same coefficients multiply keys and signatures."""
+    a transcript hasher absorbs every signature; each coefficient finalises a *clone* of that transcript extended by the index;
+    the transcript is never reset; the same coefficients multiply keys and signatures.  Evaluated over the function and its closures
+    (helpers spliced): the per-signature step may sit in a loop body or in a closure applied element-wise."""
     R = ctx.report
     f = ctx.try_fn(clause, fn_pat)
     if f is None:
         return
-    body = f.body
-    upd = [c for c in body.calls() if any(glob_match('*digest::*::update', n) or glob_match('*Digest*::update', n) for n in c.names())]
-    fin = [c for c in body.calls() if any(glob_match('*::finalize', n) for n in c.names())]
-    resets = [c for c in body.calls() if any(glob_match('*::finalize_reset', n) or glob_match('*::reset', n)
-                                             or glob_match('*::finalize_into_reset', n) for n in c.names())]
-    # transcript updates: in a loop, absorbing data derived from the signatures (p#2)
-    clone_locals = {c.dest[0] for c in body.calls() if any(glob_match('std::clone::Clone::clone', n) or
-                                                             glob_match('<* as std::clone::Clone>::clone', n) for n in c.names())}
-
-    def receiver(c):
-        a0 = c.args[0]
-        out = set()
-        if a0[0] in ('copy', 'move'):
-            for (bi, si, pl, rv) in body.defs(a0[1][0]):
-                if si != 't' and rv[0] == 'ref':
-                    out.add(rv[1][0])
-        return out
-
-    absorb = [c for c in upd if loop_body_entry(body, c.bb) is not None and len(c.args) > 1
-              and has(fn_origins(f, c.args[1], True), sig_param) and has(fn_origins(f, c.args[1], True), 'call:*BlsSignature::to_bytes')
-              and not (receiver(c) & clone_locals)]
+    fam = list(f.family())
     inst = '%s: coefficients = H(all signatures || index)' % label
     problems = []
+    calls = [(g, c) for g in fam for c in g.body.calls()]
+    clone_dests = {(id(g), c.dest[0]) for g, c in calls if any(glob_match('std::clone::Clone::clone', n) or glob_match('<* as std::clone::Clone>::clone', n) for n in c.names())}
+    resets = [c for g, c in calls if any(glob_match('*::finalize_reset', n) or glob_match('*::reset', n) or glob_match('*::finalize_into_reset', n) for n in c.names())]
+    # the transcript: hashers that absorb every signature (an update per item, fed with the bytes of a signature), not clones
+    transcript = set()
+    absorb = []
+    for g, c in calls:
+        if not any(_is_update(n) for n in c.names()) or len(c.args) < 2:
+            continue
+        og = fn_origins(g, c.args[1], True)
+        per_item = loop_body_entry(g.body, c.bb) is not None or g is not f
+        if not (per_item and has(og, 'call:*BlsSignature::to_bytes') and (has(og, sig_param) or g is not f)):
+            continue
+        bl = base_locals(g.body, c.args[0])
+        if any((id(g), l) in clone_dests for l in bl):
+            continue
+        absorb.append(c)
+        transcript |= main_base_locals(f, fam, g, c.args[0])
     if not absorb:
         problems.append('no hasher update absorbing every signature in a loop')
-    transcript = set()
-    for c in absorb:
-        og = fn_origins(f, c.args[0], False)
-        a0 = c.args[0]
-        # the local the &mut was taken from
-        for (bi, si, pl, rv) in body.defs(a0[1][0]):
-            if si != 't' and rv[0] == 'ref':
-                transcript.add(rv[1][0])
     if resets:
         problems.append('the transcript hasher is reset (lines %s)' % [c.line for c in resets])
-    per_index = [c for c in fin if loop_body_entry(body, c.bb) is not None]
+    # coefficients: per item, finalize(clone(transcript) + index)
+    per_index = [(g, c) for g, c in calls if any(glob_match('*::finalize', n) for n in c.names())
+                 and (loop_body_entry(g.body, c.bb) is not None or g is not f)]
     if not per_index:
         problems.append('no per-signature finalize in a loop')
-    for c in per_index:
-        og = fn_origins(f, c.args[0], True)
-        if not has(og, 'call:<* as std::clone::Clone>::clone') and not has(og, 'call:std::clone::Clone::clone'):
+    for g, c in per_index:
+        # walk back from the finalised hasher through by-value updates to the clone it started from
+        cur = c.args[0]
+        indexed = False
+        clone_call = None
+        for _ in range(6):
+            if cur[0] not in ('copy', 'move'):
+                break
+            dl = [(bi, si, pl, rv) for (bi, si, pl, rv) in g.body.defs(cur[1][0]) if not pl[1]]
+            step = None
+            for (bi, si, pl, rv) in dl:
+                if si == 't':
+                    cc = rv
+                    if any(glob_match('std::clone::Clone::clone', n) or glob_match('<* as std::clone::Clone>::clone', n) for n in cc.names()):
+                        clone_call = cc
+                    elif any(_is_update(n) for n in cc.names()) and cc.args:
+                        indexed = True
+                        step = cc.args[0]
+                elif rv[0] == 'use' and rv[1][0] in ('copy', 'move'):
+                    step = rv[1]
+            if clone_call is not None or step is None:
+                break
+            cur = step
+        if clone_call is None:
             problems.append('the coefficient at line %d does not finalise a clone of the transcript' % c.line)
             continue
-        # the clone's source is the transcript
-        ok = False
-        for cc in body.calls():
-            if any(glob_match('std::clone::Clone::clone', n) or glob_match('<* as std::clone::Clone>::clone', n) for n in cc.names()):
-                src = cc.args[0]
-                for (bi, si, pl, rv) in body.defs(src[1][0]):
-                    if si != 't' and rv[0] == 'ref' and rv[1][0] in transcript:
-                        ok = True
-        if not ok:
+        if not (main_base_locals(f, fam, g, clone_call.args[0]) & transcript):
             problems.append('the cloned hasher is not the transcript that absorbed the signatures')
-        # index mixed in
-        idx_upd = [u for u in upd if loop_body_entry(body, u.bb) is not None and (receiver(u) & clone_locals)]
-        if not idx_upd:
+        if not indexed:
+            # `let mut h = t.clone(); h.update(index); h.finalize()`
+            cl = clone_call.dest[0]
+            indexed = any(any(_is_update(n) for n in u.names()) and u.args and (base_locals(g.body, u.args[0]) & {cl}) for u in g.body.calls())
+        if not indexed:
             problems.append('no per-index update of the cloned hasher')
-    mults = [c for c in body.calls() if any(glob_match('blst::*::mult', n) for n in c.names())]
+    mults = [(g, c) for g, c in calls if any(glob_match('blst::*::mult', n) for n in c.names())]
     if len(mults) >= 2:
-        o1 = {o for o in fn_origins(f, mults[0].args[1], True) if o.startswith('call:')}
-        o2 = {o for o in fn_origins(f, mults[1].args[1], True) if o.startswith('call:')}
+        o1 = {o for o in fn_origins(mults[0][0], mults[0][1].args[1], True) if o.startswith('call:')}
+        o2 = {o for o in fn_origins(mults[1][0], mults[1][1].args[1], True) if o.startswith('call:')}
         if o1 != o2:
             problems.append('keys and signatures are multiplied by different coefficient vectors')
+        for g, c in mults:
+            if has(fn_origins(g, c.args[1], True), 'call:*::finalize'):
+                continue
+            # forward: pushed / extended into a vector in this body, or produced by a closure (map / flat_map) that finalises
+            starts = {c2.dest[0] for g2, c2 in per_index if g2 is g}
+            for g2, c2 in per_index:
+                if g2 is not g:
+                    starts |= {cl_local for (pg, cl_local, caps) in closure_agg_sites(fam, g2) if pg is g}
+            sc = c.args[1]
+            if not (starts and sc[0] in ('copy', 'move') and sc[1][0] in flows_forward(g.body, starts)):
+                problems.append('a weight (line %d) is not a hash output' % c.line)
     else:
         problems.append('expected two multi-scalar multiplications (keys, signatures), found %d' % len(mults))
     if problems:
-        R.violation(clause, 'R5', inst, key, '; '.join(problems), f.loc())
+        R.violation(clause, 'R5', inst, key, '; '.join(sorted(set(problems))), f.loc())
     else:
         R.ok(clause, 'R5', inst, '%d absorb site(s), %d per-index finalize(s), no reset' % (len(absorb), len(per_index)), f.loc())
     if not with_verify_args:
